@@ -734,9 +734,11 @@ fn get_field_decorators(
             }
         })
         .filter_map(|list: MetaList| match list.path.get_ident() {
-            Some(ident) if languages.contains(&ident.try_into().unwrap()) => {
-                Some((ident.try_into().unwrap(), list))
-            }
+            // Unknown identifiers (`#[typeshare(foo(bar))]`) are not language lists: skip them.
+            Some(ident) => match SupportedLanguage::try_from(ident) {
+                Ok(language) if languages.contains(&language) => Some((language, list)),
+                _ => None,
+            },
             _ => None,
         })
         .map(|(language, list): (SupportedLanguage, MetaList)| {
